@@ -1352,22 +1352,48 @@ def _max(I, t, dim=None, keepdim=False):
     if all(isinstance(x, int) and x == 1 for x in t.shape):
         e1 = t.elem(*([0] * len(t.shape)))
         return ST((), lambda: e1, t.dtype)
-    if len(t.shape) != 1:
-        raise Unsupported("max over all elements of a tensor of rank > 1")
-    n, te = to_z3(t.shape[0]), t.elem
+    te = t.elem
+    dims_ = [to_z3(d_) for d_ in t.shape]
     mx = I.ex.fresh("int" if t.dtype == "long" else "real", "max")
-    w = I.ex.fresh("int", "argmax")
-    ub = lambda i: z3.Implies(z3.And(i >= 0, i < n), to_z3(te(i)) <= mx)
-    iv = z3.Int("i_max")
-    I.ex.oblige("max.tensor_not_empty", n >= 1)
-    I.ex.assume(z3.ForAll([iv], ub(iv)))
-    att = z3.And(w >= 0, w < n, to_z3(te(w)) == mx)
+    ws = [I.ex.fresh("int", "argmax") for _ in dims_]
+    inr = lambda idx: z3.And([z3.And(to_z3(i) >= 0, to_z3(i) < d_) for i, d_ in zip(idx, dims_)])
+    # instance builder: one argument per coordinate (a rank-1 tensor: ub(i))
+    ub = lambda *idx: z3.Implies(inr(idx), to_z3(te(*idx)) <= mx)
+    iv = [z3.Int("i%d_max" % j) for j in range(len(dims_))]
+    I.ex.oblige("max.tensor_not_empty", z3.And([d_ >= 1 for d_ in dims_]))
+    I.ex.assume(z3.ForAll(iv, ub(*iv)))
+    att = z3.And(inr(ws), to_z3(te(*ws)) == mx)
     I.ex.assume(att)
-    I.ex.ghost.setdefault("maxes", []).append({"max": mx, "argmax": w, "ub": ub, "att": att})
+    I.ex.ghost.setdefault("maxes", []).append({"max": mx, "argmax": ws[0] if len(ws) == 1 else ws, "ub": ub, "att": att, "rank": len(dims_)})
     return ST((), lambda: mx, t.dtype)
 
 METH["masked_fill_"] = _inplace(_masked_fill)
 METH["masked_scatter_"] = _inplace(_masked_scatter)
+
+
+@meth("sort")
+def _sort(I, t, dim=-1, descending=False, stable=False):
+    """assumed contract of sort along the last dimension of a matrix (ascending): values[n, r] = t[n, src[n, r]], src[n, .] a
+    permutation of the positions (given with its inverse), values non-decreasing along the dimension (no rule for ties). Instance
+    builders in ghost['sorts']."""
+    if len(t.shape) != 2 or dim % 2 != 1 or descending:
+        raise Unsupported("sort other than ascending along the last dimension of a matrix")
+    n_, r_ = to_z3(t.shape[0]), to_z3(t.shape[1])
+    Iz = z3.IntSort()
+    SRC, INV = _fresh("sort_index", Iz, Iz, Iz), _fresh("sort_position_of", Iz, Iz, Iz)
+    te = t.elem
+    rows = lambda n: z3.And(n >= 0, n < n_)
+    col = lambda r: z3.And(r >= 0, r < r_)
+    val = lambda n, r: to_z3(te(n, SRC(n, r)))
+    fwd = lambda n, r: z3.Implies(z3.And(rows(n), col(r)), z3.And(col(SRC(n, r)), INV(n, SRC(n, r)) == r))
+    bwd = lambda n, r: z3.Implies(z3.And(rows(n), col(r)), z3.And(col(INV(n, r)), SRC(n, INV(n, r)) == r))
+    srt = lambda n, a, b: z3.Implies(z3.And(rows(n), 0 <= a, a <= b, b < r_), val(n, a) <= val(n, b))
+    nv, av, bv = z3.Ints("n_srt a_srt b_srt")
+    I.ex.assume(z3.ForAll([nv, av], fwd(nv, av)))
+    I.ex.assume(z3.ForAll([nv, av], bwd(nv, av)))
+    I.ex.assume(z3.ForAll([nv, av, bv], srt(nv, av, bv)))
+    I.ex.ghost.setdefault("sorts", []).append({"SRC": SRC, "INV": INV, "val": val, "fwd": fwd, "bwd": bwd, "sorted": srt, "of": t})
+    return ct.MinMaxResult(ST(t.shape, lambda a, b: te(to_z3(a), SRC(to_z3(a), to_z3(b))), t.dtype), ST(t.shape, lambda a, b: SRC(to_z3(a), to_z3(b)), "long"))
 
 
 @meth("log_softmax")
